@@ -62,7 +62,7 @@ M = [
  ("M44", "C20", [("src/Archive/VolFile.cpp", "if (fileSize > INT32_MAX) {", "if (fileSize > UINT32_MAX) {")], "VOL member size limit loosened to 32 bits"),
  ("M45", "C20", [("src/Sprite/ArtWriter.cpp", "if (frame.layerMetadata.count != frame.layers.size()) {", "if (frame.layerMetadata.count > frame.layers.size()) {")], "layer count cross-check loosened"),
  ("M46", "C05", [("src/Stream/FileReader.cpp", "\t\t\tfile.clear();\n\t\t\tfile.seekg(-bytesRead, std::ios_base::cur);\n", "")], "failed read leaves the shared archive reader wedged again"),
- ("M47", "C05", [("src/Archive/ClmFile.cpp", "\t\t} while (currentPosition < fileSize);", "\t\t} while (currentPosition != fileSize);")], "chunk walk no longer bounded by the file size"),
+ ("M47", "-C05", [("src/Archive/ClmFile.cpp", "\t\t} while (currentPosition < fileSize);", "\t\t} while (currentPosition != fileSize);")], "NEGATIVE CONTROL (found by the self-test): with the 64-bit cursor a walk that steps over the end just fails its next read - still an ordinary error, still terminates"),
  ("M48", "C12", [("src/Stream/MemoryReader.cpp", "position += bytesTransferred;", "position += size;")], "the original ReadPartial defect re-introduced"),
  ("M49", "C14", [("src/Stream/FileWriter.cpp", "iosOpenMode |= std::ios_base::app | std::ios_base::ate;", "iosOpenMode |= std::ios_base::ate;")], "the original Append-truncates defect re-introduced"),
  ("M50", "C07", [("src/Map/MapReader.cpp", "if (mapHeader.lgWidthInTiles >= 32 ||", "if (mapHeader.lgWidthInTiles > 32 ||")], "log-width of exactly 32 accepted again"),
